@@ -1,6 +1,7 @@
 import Pyunicorn.Lemmas.Repr
 import Pyunicorn.Lemmas.ReprHist
 import Pyunicorn.Lemmas.ReprAttrs
+import Pyunicorn.Lemmas.ReprEdges
 import Pyunicorn.Generated.ArithC05
 import Mathlib.Tactic.FieldSimp
 import Mathlib.Tactic.Ring
@@ -1044,6 +1045,229 @@ theorem res_path (N : Nat) (hN : 2 ≤ N) (R : Nat → Nat → Rat) (cl : List R
   exact geo_path false N hN _ cl hcl t
 
 
+/-! ## Round 4 — the embedded graph object edge by edge: the loops of `set_link_attribute` /
+`link_attribute`, and the order of the edge ids -/
+
+/-- **`link_attribute(name)` as the loop that exists in the code** (`weights = zeros`, then per
+edge id `weights[e.tuple] = e[name]`, and the transposed cell when undirected) returns the
+closed form all earlier theorems speak about — for every object, no hypothesis -/
+theorem link_attribute_loop (x : NetA) (a : String) : linkAttrLoopA x a = linkAttrA x a :=
+  linkAttrLoopA_eq x a
+
+/-- **`set_link_attribute(name, values)` as the loop that exists in the code**
+(`for e in self.graph.es: e[name] = values[e.tuple]`, one assignment per edge id, the first
+one creating the attribute with `None` elsewhere) leaves the object the closed form describes —
+for every object and every order of the edge ids, no hypothesis; in particular nothing is
+created on a network without links -/
+theorem set_link_attribute_loop (x : NetA) (a : String) (v : Nat → Nat → Rat) :
+    setLinkAttrLoop x a v = setLinkAttrA x a v :=
+  setLinkAttrLoop_eq x a v
+
+/-- after the loop the edge with id `k` holds `values[e_k.tuple]` — **whatever the order of the
+edge ids** (the statement a "vectorised" assignment in adjacency order violates) -/
+theorem set_link_attribute_per_edge (x : NetA) (a : String) (v : Nat → Nat → Rat)
+    (hne : x.core.graph ≠ []) :
+    ∃ vs, (setLinkAttrLoop x a v).attrs.get a = some vs ∧ vs.length = x.core.graph.length ∧
+      ∀ (k : Nat) (e : Nat × Nat), x.core.graph[k]? = some e → vs[k]? = some (v e.1 e.2) := by
+  rw [setLinkAttrLoop_eq]
+  unfold setLinkAttrA
+  have : x.core.graph.isEmpty = false := by simpa using hne
+  simp only [this, Bool.false_eq_true, if_false]
+  refine ⟨_, by rw [get_put, if_pos rfl], by simp, ?_⟩
+  intro k e hk
+  rw [List.getElem?_map, hk]
+  rfl
+
+/-- a history executed through the loops (what the driver runs) is the history of round 3 -/
+theorem history_through_loops (store : IGraphA → IGraphA) (x : NetA) (ops : List OpA) :
+    runL store x ops = runA store x ops :=
+  runL_eq store ops x
+
+/-- **`FromIGraph` / `Load` with named attributes**: a simple igraph object — edges in the
+object's own order — becomes a live object representing the relation its edges list, its
+stored vertex weights (or ones), and for every attribute name the matrix its per-edge values
+describe; the object keeps the graph (edge order included) and the attribute dictionary -/
+theorem igraph_path_named (h : IGraphA) (hs : SimpleIG h) :
+    ∃ x, fromIGraphA h = .ok x ∧ ReprsA x (absOf h) ∧ x.core.N = h.g.n
+      ∧ x.core.directed = h.g.directed ∧ x.core.graph = h.g.edges ∧ x.attrs = h.attrs :=
+  fromIGraphA_reprs h hs
+
+/-- **the orientation in which an undirected edge is listed is not kept**:
+`igraph.Graph(n, edges, directed)` reports `(smaller, larger)`, so a listing and the listing
+with any edges turned round give the same tuples, and the tuples describe the relation the
+listing describes -/
+theorem igraph_orientation_irrelevant (d : Bool) (E : List (Nat × Nat)) :
+    (∀ e, normEdge false (swap e) = normEdge false e)
+    ∧ (∀ e, normEdge true e = e)
+    ∧ (∀ e, normEdge d (normEdge d e) = normEdge d e)
+    ∧ ∀ i j, rel d (E.map (normEdge d)) i j = rel d E i j :=
+  ⟨normEdge_swap, normEdge_directed, normEdge_idem d, rel_map_normEdge d E⟩
+
+/-- two live objects representing the same abstract state show the same observables: every
+field but the graph object itself (`N`, `n_links`, `link_density`, `sp_A`, weights, total,
+mean, stored vertex weights), the relation of the embedded graph, `link_attribute(name)` cell
+for cell for every name, and the same names missing -/
+theorem same_state_same_observables {x x' : NetA} {σ : AbsA} (h : ReprsA x σ) (h' : ReprsA x' σ)
+    (hN : x'.core.N = x.core.N) :
+    x'.core = { x.core with graph := x'.core.graph }
+    ∧ (∀ i j, i < x.core.N → j < x.core.N →
+        rel σ.d x'.core.graph i j = rel σ.d x.core.graph i j)
+    ∧ (∀ a V, σ.V a = some V → ∃ f f', linkAttrA x a = some f ∧ linkAttrA x' a = some f' ∧
+        ∀ i j, i < x.core.N → j < x.core.N → f' i j = f i j)
+    ∧ (∀ a, σ.V a = none → findLinkAttrA x a = false ∧ findLinkAttrA x' a = false) := by
+  obtain ⟨e1, r1, a1⟩ := reprsA_observables h
+  obtain ⟨e2, r2, a2⟩ := reprsA_observables h'
+  rw [hN] at e2 r2 a2
+  have key : ∀ (c c' : Net) (d : Bool) (N : Nat) (a : Nat → Nat → Bool) (w : List Rat)
+      (v : Option (List Rat)) (g g' : List (Nat × Nat)),
+      c = { ofGraph d N a w none with graph := g, gvw := v } →
+      c' = { ofGraph d N a w none with graph := g', gvw := v } → c' = { c with graph := g' } := by
+    intro c c' d N a w v g g' hc hc'
+    subst hc hc'
+    rfl
+  refine ⟨key _ _ _ _ _ _ _ _ _ e1 e2, ?_, ?_, ?_⟩
+  · intro i j hi hj
+    rw [r1 i j hi hj, r2 i j hi hj]
+  · intro a V hV
+    have b1 := a1 a
+    have b2 := a2 a
+    rw [hV] at b1 b2
+    obtain ⟨f, hf, hfv⟩ := b1
+    obtain ⟨f', hf', hfv'⟩ := b2
+    exact ⟨f, f', hf, hf', fun i j hi hj => by rw [hfv i j hi hj, hfv' i j hi hj]⟩
+  · intro a hV
+    have b1 := a1 a
+    have b2 := a2 a
+    rw [hV] at b1 b2
+    exact ⟨b1.1, b2.1⟩
+
+/-- **the order of the edge ids of the embedded graph object is not observable — after any
+history.**  Let `h'` be the igraph object `h` with its edges listed in another order (every
+edge attribute reordered with them).  Then `FromIGraph` / `Load` of both succeed, and after
+**every** history of statements (any length, any order: `set_link_attribute` through its
+per-edge loop, `link_attribute`, `del_link_attribute`, weights, `adjacency = A`, `save`,
+`save`+`Load`, `copy()`, `FromIGraph(net.graph)`, `undirected_copy()`, the `edge_list()` round
+trip, `permuted_copy(identity)`) both objects represent the *same* specified state — hence
+(`same_state_same_observables`) agree in every observable. -/
+theorem edge_order_irrelevant (store : IGraphA → IGraphA) (hstore : ∀ g, store g = g)
+    (h h' : IGraphA) (hs : SimpleIG h) (hr : Reordered h h') (ops : List OpA)
+    (hv : ValidRun h.g.n h.g.directed ops) :
+    ∃ x0 x0' x x', fromIGraphA h = .ok x0 ∧ fromIGraphA h' = .ok x0'
+      ∧ runL store x0 ops = .ok x ∧ runL store x0' ops = .ok x'
+      ∧ ReprsA x (specA h.g.n (absOf h) ops) ∧ ReprsA x' (specA h.g.n (absOf h) ops)
+      ∧ x'.core.N = x.core.N := by
+  obtain ⟨x0, f0, r0, n0, d0, _, _⟩ := fromIGraphA_reprs h hs
+  obtain ⟨x0', f0', r0', n0', d0'⟩ := reordered_reprs hs hr
+  obtain ⟨x, hx, rx, nx⟩ := runA_reprs store hstore ops x0 _ r0 (by rw [n0, d0]; exact hv)
+  obtain ⟨x', hx', rx', nx'⟩ := runA_reprs store hstore ops x0' _ r0' (by rw [n0', d0']; exact hv)
+  rw [n0] at rx
+  rw [n0'] at rx'
+  exact ⟨x0, x0', x, x', f0, f0', by rw [runL_eq]; exact hx, by rw [runL_eq]; exact hx', rx, rx',
+    by rw [nx, nx', n0, n0']⟩
+
+/-- the special case the seeded change `C04-6` broke: `set_link_attribute(V)` then
+`link_attribute` on two graph objects that differ only in the order of their edge ids return
+the same matrix — `V` on the links, 0 elsewhere — for **any** graph object (not even simplicity
+is needed) -/
+theorem set_then_get_order_free (d : Bool) (E E' : List (Nat × Nat)) (hp : E'.Perm E)
+    (V : Nat → Nat → Rat) (hV : d = false → ∀ i j, V j i = V i j) (as as' : Attrs) (a : String)
+    (c c' : Net) (hc : c.graph = E ∧ c.directed = d) (hc' : c'.graph = E' ∧ c'.directed = d) :
+    ∃ f f', linkAttrLoopA (setLinkAttrLoop ⟨c, as⟩ a V) a = some f
+      ∧ linkAttrLoopA (setLinkAttrLoop ⟨c', as'⟩ a V) a = some f'
+      ∧ ∀ i j, f' i j = f i j ∧ f i j = if rel d E i j then V i j else 0 := by
+  obtain ⟨rfl, rfl⟩ := hc
+  obtain ⟨hg', hd'⟩ := hc'
+  obtain ⟨⟨f, hf, hfv⟩, _⟩ := named_attr_get_set ⟨c, as⟩ a V hV
+  obtain ⟨⟨f', hf', hfv'⟩, _⟩ := named_attr_get_set ⟨c', as'⟩ a V (by rw [hd']; exact hV)
+  refine ⟨f, f', ?_, ?_, ?_⟩
+  · rw [linkAttrLoopA_eq, setLinkAttrLoop_eq]; exact hf
+  · rw [linkAttrLoopA_eq, setLinkAttrLoop_eq]; exact hf'
+  · intro i j
+    refine ⟨?_, hfv i j⟩
+    rw [hfv i j, hfv' i j]
+    show (if rel c'.directed c'.graph i j then V i j else 0) = _
+    rw [hd', hg', rel_perm _ _ _ hp]
+
+/-- **where the assumption "edge ids follow the adjacency order" holds, and only there**: the
+graph object the adjacency setter builds (`Graph(n, nz_coords(A)).simplify()`) lists its edges
+as a sub-sequence of the row-major enumeration of the cells, so re-deriving the listing from
+the adjacency matrix gives the listing itself and values handed over in adjacency order land
+on the right edge ids.  For an adopted graph object (`FromIGraph` / `Load`) nothing of the
+kind holds (non-vacuity example below: `[(1, 2), (0, 1)]`); the code's per-edge loops do not
+need it (`set_link_attribute_per_edge`, `edge_order_irrelevant`). -/
+theorem setter_graph_adjacency_order (d : Bool) (N : Nat) (c : List (Nat × Nat))
+    (f : Nat × Nat → Rat) :
+    (graphEdges d N c).Sublist (pairs N N)
+    ∧ graphEdges d N (graphEdges d N c) = graphEdges d N c
+    ∧ (graphEdges d N (graphEdges d N c)).map f = (graphEdges d N c).map f :=
+  ⟨List.filter_sublist, graphEdges_idem d N c, by rw [graphEdges_idem]⟩
+
+/-- **`average_link_attribute(name)`** (`link_attribute(name).mean(axis=1)`, through the loop)
+of an object representing `σ`: node `i` gets the sum of the specified values over its links
+divided by `N`; an unspecified name raises `KeyError` as soon as there is a link -/
+theorem average_link_attribute_spec {x : NetA} {σ : AbsA} (h : ReprsA x σ) (a : String) :
+    match σ.V a with
+    | some V => avgLinkAttrA x a = some ((List.range x.core.N).map fun i =>
+        ((List.range x.core.N).map fun j => if σ.a i j then V i j else 0).sum / (x.core.N : Rat))
+    | none => x.core.graph ≠ [] → avgLinkAttrA x a = none := by
+  obtain ⟨_, _, ha⟩ := reprsA_observables h
+  have hb := ha a
+  cases hV : σ.V a with
+  | none =>
+    rw [hV] at hb
+    intro hne
+    show avgLinkAttrA x a = none
+    unfold avgLinkAttrA
+    rw [linkAttrLoopA_eq, hb.2 hne]
+    rfl
+  | some V =>
+    rw [hV] at hb
+    obtain ⟨f, hf, hfv⟩ := hb
+    show avgLinkAttrA x a = some _
+    unfold avgLinkAttrA
+    rw [linkAttrLoopA_eq, hf]
+    simp only [Option.map_some]
+    congr 1
+    apply List.map_congr_left
+    intro i hi
+    congr 2
+    apply List.map_congr_left
+    intro j hj
+    exact hfv i j (List.mem_range.1 hi) (List.mem_range.1 hj)
+
+/-- **`SpatialNetwork.Load` / `GeoNetwork.Load` of any simple igraph object with named
+attributes** (a file somebody else wrote: edges in its own order; vertex weights stored or
+not): the network is rebuilt from the dense adjacency matrix, gets the stored weights — else
+the ones the constructor assigned (`geoW`), else ones —, and adopts the graph object (edge
+order included) with its whole attribute dictionary; it represents the state the object
+lists.  (Round 2 had this for objects written by `save`, one anonymous attribute.) -/
+theorem spatial_load_named (h : IGraphA) (hs : SimpleIG h) (gw : Option (Option (List Rat)))
+    (hgw : ∀ x, gw = some (some x) → x.length = h.g.n) :
+    ∃ x, loadViaAdjacencyA h gw = .ok x
+      ∧ ReprsA x { absOf h with w := loadedWeights h.g.n h.g.vw gw }
+      ∧ x.core.N = h.g.n ∧ x.core.graph = h.g.edges ∧ x.attrs = h.attrs := by
+  obtain ⟨x, a, b, c, _, d, e⟩ := loadViaAdjacencyA_reprs_of h hs gw hgw
+    { absOf h with w := loadedWeights h.g.n h.g.vw gw } rfl (fun _ _ _ _ => rfl) rfl rfl
+    (attrOK_absOf h)
+  exact ⟨x, a, b, c, d, e⟩
+
+/-- … and the order of the edge ids in that file is not observable either: the reordered
+object loads to an object representing the same state -/
+theorem spatial_load_order_irrelevant (h h' : IGraphA) (hs : SimpleIG h) (hr : Reordered h h')
+    (gw : Option (Option (List Rat))) (hgw : ∀ x, gw = some (some x) → x.length = h.g.n) :
+    ∃ x x', loadViaAdjacencyA h gw = .ok x ∧ loadViaAdjacencyA h' gw = .ok x'
+      ∧ ReprsA x { absOf h with w := loadedWeights h.g.n h.g.vw gw }
+      ∧ ReprsA x' { absOf h with w := loadedWeights h.g.n h.g.vw gw }
+      ∧ x'.core.N = x.core.N := by
+  obtain ⟨x, a, b, c, _⟩ := spatial_load_named h hs gw hgw
+  obtain ⟨x', a', b', c', _⟩ := loadViaAdjacencyA_reprs_of h' (simpleIG_reordered hs hr) gw
+    (fun y hy => by rw [hr.n]; exact hgw y hy)
+    { absOf h with w := loadedWeights h.g.n h.g.vw gw } hr.d
+    (fun i j _ _ => by rw [hr.d]; exact rel_perm _ _ _ hr.edges i j)
+    (by show loadedWeights h'.g.n h'.g.vw gw = loadedWeights h.g.n h.g.vw gw; rw [hr.n, hr.vw])
+    hr.vw (attrOK_reordered hs hr)
+  exact ⟨x, x', a, a', b, b', by rw [c, c', hr.n]⟩
+
 /-! non-vacuity, round 3 -/
 
 /-- two attributes at once on the path-plus-isolated-node network; an undirected copy in the
@@ -1083,5 +1307,71 @@ attribute is renamed, `corr` is kept, `link_weights` is renamed away -/
 example : stripUnderscores "node_weight_nsi" ≠ "node_weight_nsi"
     ∧ stripUnderscores "corr" = "corr" ∧ stripUnderscores "link_weights" = "linkweights" := by
   decide
+
+/-! non-vacuity, round 4 -/
+
+/-- an igraph object whose edge ids are NOT in adjacency order (path 0-1-2 plus an isolated
+node, the edge 1-2 first), with stored vertex weights and one edge attribute … -/
+def exH : IGraphA := ⟨⟨4, false, [(1, 2), (0, 1)], some [1, 2, 3, 4], none⟩, [("w", [7, 5])]⟩
+/-- … and the same object with the edges (and the values) in adjacency order -/
+def exH' : IGraphA := ⟨⟨4, false, [(0, 1), (1, 2)], some [1, 2, 3, 4], none⟩, [("w", [5, 7])]⟩
+
+private theorem get_single (b a : String) (vs : List Rat) :
+    Attrs.get [(b, vs)] a = if b == a then some vs else none := rfl
+
+example : SimpleIG exH := by
+  refine ⟨by decide, ⟨by decide, fun _ => by decide⟩, ?_, by decide, ?_, ?_⟩
+  · intro p hp
+    have : p = (1, 2) ∨ p = (0, 1) := by simpa [exH] using hp
+    rcases this with rfl | rfl <;> decide
+  · intro w hw; cases hw; rfl
+  · intro a vs hv
+    change Attrs.get [("w", [7, 5])] a = some vs at hv
+    rw [get_single] at hv
+    split at hv
+    · cases hv; rfl
+    · cases hv
+
+example : Reordered exH exH' := by
+  refine ⟨rfl, rfl, rfl, List.Perm.swap _ _ _, ?_⟩
+  intro a
+  change (Attrs.get [("w", [7, 5])] a = none ∧ Attrs.get [("w", [5, 7])] a = none) ∨ _
+  rw [get_single, get_single]
+  by_cases ha : ("w" == a) = true
+  · right
+    refine ⟨[7, 5], [5, 7], ?_, ?_, rfl, List.Perm.swap _ _ _⟩
+    · change Attrs.get [("w", [7, 5])] a = _
+      rw [get_single, if_pos ha]
+    · change Attrs.get [("w", [5, 7])] a = _
+      rw [get_single, if_pos ha]
+  · left
+    exact ⟨if_neg ha, if_neg ha⟩
+
+/-- the two listings describe the same matrix (5 on the link 0-1, 7 on the link 1-2) … -/
+example : matOf false [(1, 2), (0, 1)] [7, 5] 0 1 = 5 ∧ matOf false [(0, 1), (1, 2)] [5, 7] 0 1 = 5
+    ∧ matOf false [(1, 2), (0, 1)] [7, 5] 2 1 = 7 := by
+  refine ⟨?_, ?_, ?_⟩ <;> simp [matOf, lastVal, cellPred]
+
+/-- … whereas handing the values *in adjacency order* to the edge ids *in their own order*
+(what the "vectorised" `graph.es[name] = values[edge_list()]` of the seeded change C04-6 does)
+puts them on the wrong links: the per-edge loop stores `[V 1 2, V 0 1]`, the vectorised
+assignment `[V 0 1, V 1 2]`, and `link_attribute` then shows `V 1 2` on the link 0-1 -/
+example :
+    (setLinkAttrLoop ⟨{ Net.blank false 4 with graph := [(1, 2), (0, 1)] }, []⟩ "w"
+        (fun i j => ((10 * i + j : Nat) : Rat))).attrs = [("w", [12, 1])]
+    ∧ matOf false [(1, 2), (0, 1)]
+        ((graphEdges false 4 [(1, 2), (0, 1)]).map fun e => ((10 * e.1 + e.2 : Nat) : Rat)) 0 1 = 12 := by
+  refine ⟨?_, ?_⟩
+  · rw [setLinkAttrLoop_eq]; norm_num [setLinkAttrA, Net.blank, Attrs.put]
+  · norm_num [matOf, lastVal, cellPred, graphEdges, pairs, swap, List.range, List.range.loop]
+
+/-- a history on both objects that assigns an attribute after adoption, copies and reloads -/
+example : ValidRun exH.g.n exH.g.directed
+    [.setAttr "v" (fun i j => (i + j : Nat)), .copy, .reload, .delAttr "w"] :=
+  ⟨fun _ i j => by simp [Nat.add_comm], trivial, trivial, trivial, trivial⟩
+
+/-- igraph's tuples for a listing with one edge turned round -/
+example : [(2, 1), (0, 1)].map (normEdge false) = [(1, 2), (0, 1)]
+    ∧ [(2, 1), (0, 1)].map (normEdge true) = [(2, 1), (0, 1)] := by decide
 
 end Pyunicorn.Repr
